@@ -308,6 +308,12 @@ class FakeLogging:
     Formatter = _Dummy
 
     def basicConfig(self, **conf):
+        # documented contract: does nothing if the root logger already has handlers, unless force=True
+        # (which removes them first); the root logger lives as long as the process does
+        if CURRENT.get("configured") and not conf.get("force"):
+            return
+        CURRENT["logfile"] = None
+        CURRENT["configured"] = True
         if "filename" in conf:
             CURRENT["logfile"] = conf["filename"].open(conf.get("filemode", "a"))
 
@@ -329,7 +335,6 @@ P2A.logging = FakeLogging()
 def run_cli(fs, asm_file, prtxt_file, out_name, clobber, write_log):
     del ECHO[:]
     del LOGGED[:]
-    CURRENT.pop("logfile", None)
     code = None
     try:
         P2A.cli.callback(Path(TMP) / asm_file, Path(TMP) / prtxt_file, FP(fs, "/out/" + out_name), "SUPER_", clobber, "INFO", write_log)
@@ -356,9 +361,10 @@ def rerun_identical(case: int) -> bool:
     s1 = snapshot_fs(fs)
     # an unrelated run in between (different inputs, other output name)
     run_cli(FS({}), "in.tpf", "one.agp", "other.tpf", True, False)
+    s1b = snapshot_fs(fs)          # ... which must not touch the first run's files (its log included)
     c2, _ = run_cli(fs, a, p, o, True, True)
     s2 = snapshot_fs(fs)
-    return FIN(c1 is None and c2 is None and s1 == s2 and len(s1) >= 5)
+    return FIN(c1 is None and c2 is None and s1 == s2 and s1 == s1b and len(s1) >= 5)
 
 
 def planned(asm_file, prtxt_file, out_name):
